@@ -655,6 +655,23 @@ def run_function1(ub, fs, tier='quick', solver=None, extra_defs=(), vacuity=True
     R['backend'] = slv
     if rc == 124:
         raise Undecided('timeout', '%s: cbmc (%s) exceeded %ds' % (fs.name, slv, to))
+
+    def _crashed(out):
+        try:
+            r_, _, _ = parse_cbmc_json(out)
+            return r_ is None
+        except Exception:
+            return True
+    if _crashed(so) and slv != 'cadical':
+        # the external / SMT back end died without a result (seen once with kissat under memory pressure):
+        # one retry with the built-in SAT back end; the back end actually used is recorded
+        cmd = ['cbmc', '--sat-solver', 'cadical'] + CBMC_CHECKS + fs.flags + ['--json-ui', gb2]
+        rc, so, se, t = sh(cmd, timeout=to)
+        R['cmds'].append(' '.join(cmd))
+        R['seconds']['cadical(retry after %s crashed)' % slv] = t
+        R['backend_note'] = 'primary back end %s died without a result; obligations decided by cadical' % slv
+        if rc == 124:
+            raise Undecided('timeout', '%s: cbmc (cadical retry after %s crashed) exceeded %ds' % (fs.name, slv, to))
     try:
         res, _, msgs = parse_cbmc_json(so)
     except Exception as e:
